@@ -48,6 +48,7 @@ func (f *Gethash) Call(s *slip.Scope, args slip.List, depth int) (result slip.Ob
 	if !ok {
 		slip.TypePanic(s, depth, "hash-table", args[1], "hash-table")
 	}
+	slip.MustBeHashable(s, depth, args[0])
 	v, has := ht[args[0]]
 	var ho slip.Object
 	if has {
@@ -63,5 +64,6 @@ func (f *Gethash) Place(s *slip.Scope, args slip.List, value slip.Object) {
 	if !ok {
 		slip.TypePanic(s, 0, "hash-table", args[1], "hash-table")
 	}
+	slip.MustBeHashable(s, 0, args[0])
 	ht[args[0]] = value
 }
